@@ -136,6 +136,41 @@ register('C20',
          'DESIGN.md 5/C20')
 
 
+register('C16',
+         'TestInfo.tla mirrors SetTestResult / AttachFactors / GetHighestSeverity and pins the documented check table (names, '
+         'severities, applicability, joint vs single); Checks.tla explores every history of calls (single check or entry point, '
+         'any sub-batch incl. empty, pre-annotated artifacts, every verdict assignment inside must/mustnot/may) and TLC checks '
+         'one-entry-per-check, no duplicates, weak-iff-positive, version stamped, return-iff-weak and the action properties '
+         'Monotone / UntouchedOutsideBatch. TLC-simulated call histories over the real check names (plus directed ones: re-runs, '
+         'factor-set union, equal coordinates under two curve labels) are replayed on real RSA / EC / ECDSA protobufs and every '
+         'call is validated as a transition (before -> after projected TestInfo) by ChecksTrace.tla, naming the violated clause.',
+         'Trusted: TLC, pv.checks.project (own parser of attached_info), pv.gen ground truth of every artifact, the check table in '
+         'TestInfo.tla (from README / class docstrings). Quick tier builds the small-difference check with max_diff = 2^12.',
+         'TLA+ spec (TestInfo.tla, Checks.tla) model-checked over call histories with TLC + TLC-simulated histories replayed on real protobufs + TLC transition validation',
+         'DESIGN.md 5/C16')
+register('C17',
+         'Each call of a TLC-simulated history is executed on fresh copies of the artifacts in five settings: after the earlier '
+         'calls of the history in one process (warm caches / tables / singletons), every artifact alone in a fresh process, the '
+         'batch in a fresh process, the batch permuted, and the batch with healthy artifacts added. SoloTrace.tla decides: single '
+         'checks give the same entry and evidence as alone; joint checks: flagged fresh => flagged later, permutation-equivariant, '
+         'healthy neighbours neutral. The cache that makes this non-trivial (per-curve table shared by three searches) is '
+         'model-checked in Bsgs.tla for every reachable cache state; the bookkeeping side in Checks.tla.',
+         'Trusted: TLC, pv.checks.project, fork semantics for "fresh process". The oracle is the code\'s own verdict in another setting. '
+         'Permutation/neighbour clauses for joint checks apply to decided (must/mustnot) artifacts only.',
+         'TLA+ specs (Checks.tla, Bsgs.tla) model-checked with TLC + each simulated call replayed in five settings + TLC trace validation (SoloTrace.tla)',
+         'DESIGN.md 5/C17')
+register('C18',
+         'Total (raised = FALSE, boolean return) is an invariant of Checks.tla over every history and batch incl. the empty one. '
+         'TLC-simulated histories over the degenerate vocabulary (moduli prime / even / square / 2^k / odd length / 64 and 65 bits / '
+         'three primes, empty and huge exponents, curve identifiers 0..25, coordinates 0 / p / x+p / huge / off-curve / y = 0, '
+         'duplicates, empty and 64-byte hashes, r, s in {1, n-1}, invalid and unsupported issuer keys, empty batches) are replayed '
+         'through every individual check and every entry point; ChecksTrace.tla rejects any exception or non-bool return and also '
+         'checks the bookkeeping and evidence clauses on these inputs.',
+         'Trusted: TLC, record_call (exception class, type of the return value).',
+         'TLA+ spec (Checks.tla: Total) model-checked with TLC + degenerate-batch histories generated by TLC replayed into every check + TLC trace validation',
+         'DESIGN.md 5/C18')
+
+
 def main():
   props = [json.loads(l)['id'] for l in open(os.path.join(HOME, 'properties.jsonl'))]
   checks = []
